@@ -1,0 +1,16 @@
+//go:build verif
+
+// Contracts for package ipc (comment-only; read by /verif/govc).
+
+package ipc
+
+//@ struct dialer
+//@   lock lock level 50
+//@   guarded_by lock: maxRcvSize
+//@   immutable: addr proto hs
+//@
+//@ struct listener
+//@   lock lock level 50
+//@   guarded_by lock: maxRcvSize owner group chown mode chmod closed
+//@   immutable: addr proto hs closeQ
+//@   racy: listener because set under the lock by Listen before the accept goroutine starts and read by that goroutine without it (ordered by goroutine creation)
